@@ -2,7 +2,7 @@
   C11 — "Parsing exposes exactly what is on the wire and rejects mis-framed messages".
   Property theorems only.  Theorems quantify over every `Fixes` setting unless they name `Fixes.cur`.
 -/
-import Qfx.Lemmas.Codec
+import Qfx.Lemmas.CodecParse
 open Qfx Qfx.Spec
 
 /-- the field extracted from a buffer is exactly the bytes up to and including the first SOH; the rest is what follows -/
@@ -137,6 +137,38 @@ theorem C11_rejects_length (fx : Fixes) (d : Dicts) (w : Bytes) (m : Message) (h
             · exact Or.inl hor
             · exact Or.inr ⟨c0, hor, by rw [hf]; rfl⟩
 
+/-- FIDELITY (no dictionary).  "For every message that starts with BeginString, BodyLength, MsgType, ends with CheckSum and has a
+    correct BodyLength, parsing succeeds, … the field order is preserved for validation, and the message's raw bytes are
+    returned unchanged."  For every well-formed wire message `8, 9, 35, pre…, 10` — arbitrary tag texts that `atoi` reads
+    (`IsWire`: non-empty, free of `=` and SOH), arbitrary SOH-free values, no further 9 / 10 and no XMLDataLen among `pre` —
+    whose BodyLength value is the summed length of all fields but 8, 9, 10: the parse succeeds, `Message.fields` is exactly
+    the wire's field list in order, `Bytes()` is the wire.  Holds for the unchanged and the fixed code (`fx` arbitrary). -/
+theorem C11_faithful_nodict (fx : Fixes) (t8 t9 t35 : TagValue) (pre : List TagValue) (t10 : TagValue)
+    (hw : WireMsg t8 t9 t35 pre t10)
+    (hbl : atoi t9.value = .ok ((fieldsLength (t8 :: t9 :: t35 :: (pre ++ [t10])) : Nat) : Int)) :
+    ∃ m, parseMessage fx Dicts.none (wireOf (t8 :: t9 :: t35 :: (pre ++ [t10]))) = .ok m ∧
+      m.fields = t8 :: t9 :: t35 :: (pre ++ [t10]) ∧
+      m.bytes fx = .ok (wireOf (t8 :: t9 :: t35 :: (pre ++ [t10])), m) :=
+  ⟨_, parse_wire_nodict fx t8 t9 t35 pre t10 hw hbl, rfl, rfl⟩
+
+/-- RETRIEVABILITY (no dictionary).  "every field is retrievable from the section its tag belongs to with exactly its wire
+    value": in the message parsed from such a wire, every field whose tag occurs once on the wire is returned by `GetBytes`
+    on the section of its tag (header for `IsHeader` tags, trailer for `IsTrailer` tags, body otherwise) with its wire value. -/
+theorem C11_retrievable_nodict (fx : Fixes) (t8 t9 t35 : TagValue) (pre : List TagValue) (t10 : TagValue)
+    (hw : WireMsg t8 t9 t35 pre t10)
+    (hbl : atoi t9.value = .ok ((fieldsLength (t8 :: t9 :: t35 :: (pre ++ [t10])) : Nat) : Int))
+    (j : Nat) (tv : TagValue) (hj : (t8 :: t9 :: t35 :: (pre ++ [t10]))[j]? = some tv)
+    (huniq : ∀ j' tv', (t8 :: t9 :: t35 :: (pre ++ [t10]))[j']? = some tv' → j' ≠ j → tv'.tag ≠ tv.tag) :
+    ∃ m, parseMessage fx Dicts.none (wireOf (t8 :: t9 :: t35 :: (pre ++ [t10]))) = .ok m ∧
+      (m.sec (secOf Dicts.none tv.tag)).getBytes m.fields tv.tag = .ok tv.value := by
+  refine ⟨_, parse_wire_nodict fx t8 t9 t35 pre t10 hw hbl, ?_⟩
+  have hfind := ndFinal_find t8 t9 t35 pre t10 hw j tv hj huniq
+  rw [secOf_none]
+  have hsec : ∀ s, (ndMessage t8 t9 t35 pre t10).sec s = (ndFinal t8 t9 t35 pre t10).sec s := by
+    intro s; cases s <;> rfl
+  rw [hsec]
+  exact getBytes_view _ _ _ j tv hfind hj
+
 /-! ## not (yet) theorems — checked on every run by `Qfx.Spec.monParse` on the implementation and by the correspondence -/
 
 /-- for every well-formed wire message: success, fields in wire order with exact values, raw bytes unchanged -/
@@ -170,7 +202,8 @@ theorem C11_orig_xml_len_faults (b : Bytes) (e : Nat) (n : Int) (he : indexByte 
 example : (extractField [56, 61, 70, 1, 57, 61, 53, 1]).1 = [57, 61, 53, 1] := by decide
 
 /- Clause checklist (properties.jsonl C11):
-   "parsing succeeds … every field retrievable … order preserved … raw bytes unchanged"   C11_faithful_full, C11_retrievable_full
+   "parsing succeeds … every field retrievable … order preserved … raw bytes unchanged"   no dictionary: C11_faithful_nodict,
+        C11_retrievable_nodict (theorems); with dictionaries and XMLData: C11_faithful_full, C11_retrievable_full
         (monitor clauses accepts_wf, fields_faithful, parsed_sections, retrievable, raw_unchanged); field slicing: C11_extractField_slices
    "first three fields are not 8, 9, 35 … rejected"                                          C11_rejects_order
    "BodyLength disagrees with its content … rejected"                                        C11_rejects_length, C11_finish_checks_length,
